@@ -105,7 +105,7 @@ func (c12) Gen(r *Rand, idx int, tier string) interface{} {
 		}
 		p.Tasks = append(p.Tasks, t)
 	}
-	p.QueueSize = Pick(r, []int{1, 2, 3, 5, 100})
+	p.QueueSize = Pick(r, []int{0, 1, 2, 3, 5, 100})
 	for i := range p.Tasks {
 		if r.Pct(30) && p.Tasks[i].Rounds > 0 {
 			p.Tasks[i].Trailing = 1 + r.Intn(2)
